@@ -219,11 +219,11 @@ var atomicStructure = &structure{
 			}
 			switch {
 			case in.Obj >= 0:
-				recs[i].Res = fmt.Sprintf("o%d", in.Obj)
+				recs[i].Res = resObj + in.Obj
 			case in.Key >= 0:
-				recs[i].Res = fmt.Sprintf("k%d", in.Key)
+				recs[i].Res = resKey + in.Key
 			default:
-				recs[i].Res = "*"
+				recs[i].Res = resAll
 			}
 		}
 	},
